@@ -93,6 +93,7 @@ class Built:
     self.prog, self.cfg = prog, cfg
     self.log = EventLog()
     self.ctr = {}
+    self.release = threading.Event()    # ends bodies of behaviour 'HU'
     self.diag_calls = {}
     self.recs = []
     self.plug_classes = {}
@@ -163,8 +164,14 @@ class Built:
             log.add('plug_td_hang', idx)
             threading.Event().wait()
 
-      P.__name__ = 'Plug%d' % idx
-      P.__qualname__ = 'Plug%d' % idx
+      # cfg['plug_same_name'] = [[i, j], ...]: distinct classes i and j carry
+      # the same module and class name (e.g. made by one class factory)
+      shown = idx
+      for grp in (self.cfg.get('plug_same_name') or []):
+        if idx in grp:
+          shown = min(grp)
+      P.__name__ = 'Plug%d' % shown
+      P.__qualname__ = 'Plug%d' % shown
       self.plug_classes[idx] = P
     return self.plug_classes[idx]
 
@@ -212,6 +219,7 @@ class Built:
     _, pid, beh = n
     PR = H.PhaseResult
     log, ctr, vc = self.log, self.ctr, _H['vc']
+    release = self.release
     plug_idx = list(beh.get('plugs') or [])
 
     def body(test, **plug_args):
@@ -236,6 +244,15 @@ class Built:
           log.add('hang', pid, inv)
           while True:
             time.sleep(0.0005)
+        if r == 'HU':
+          # blocked in a C wait: a kill request has no effect until the
+          # harness releases it (Built.release), after which it just returns
+          log.add('hang_unkillable', pid, inv)
+          try:
+            release.wait(60)
+          except BaseException:  # pylint: disable=broad-except
+            pass
+          return None
         if r == 'T':
           log.add('hang', pid, inv)
           while True:
@@ -272,6 +289,10 @@ class Built:
       # an int i asks for plug class i as argument 'plug<i>'; a string such as
       # '0b' asks for the same class 0 under a second name 'plug0b'
       ph = H.plugs.plug(**{'plug%s' % ent: self.plug_class(plug_index(ent))})(ph)
+    if beh.get('with_args'):
+      # keyword values given with with_args(); a name that is also a plug
+      # argument must still be bound to the plug ("plugs override extra_kwargs")
+      ph = ph.with_args(**{k: v for k, v in beh['with_args'].items()})
     if 'm' in beh:
       ph = H.measures(H.Measurement('m_' + pid).in_range(
           0, 10, marginal_maximum=9))(ph)
@@ -303,14 +324,28 @@ class Built:
     calls = self.diag_calls
     log = self.log
 
-    @H.PhaseDiagnoser(R, name='diag_%s_%d' % (pid, di))
-    def diag(phase_record, _spec=spec):
+    # a dict spec {'af': 1, 'shape': 'single'|'list'|'tuple'|'gen', 'ds': [...]}
+    # declares the diagnoser with always_fail=True and chooses how the
+    # diagnoses are handed back
+    af = isinstance(spec, dict)
+    shape = spec.get('shape', 'list') if af else 'list'
+    entries = spec['ds'] if af else spec
+
+    @H.PhaseDiagnoser(R, name='diag_%s_%d' % (pid, di), always_fail=af)
+    def diag(phase_record, _spec=entries):
       calls[(pid, di)] = calls.get((pid, di), 0) + 1
       log.add('diag', pid, di)
       if _spec == 'RAISE':
         raise RuntimeError('diag boom')
-      return [H.Diagnosis(R[e[0]], 'x', is_failure=bool(e[1]),
-                          is_internal=bool(e[2:] and e[2])) for e in _spec]
+      out = [H.Diagnosis(R[e[0]], 'x', is_failure=bool(e[1]),
+                         is_internal=bool(e[2:] and e[2])) for e in _spec]
+      if shape == 'single':
+        return out[0] if out else None
+      if shape == 'tuple':
+        return tuple(out)
+      if shape == 'gen':
+        return (d for d in out)
+      return out
 
     return diag
 
@@ -386,6 +421,7 @@ def run_real(prog, cfg, callbacks=None, keep=False):
     except Exception as e:  # pylint: disable=broad-except
       exc = '%s: %s' % (type(e).__name__, str(e)[:200])
   finally:
+    b.release.set()
     threading.excepthook = old_hook
     prune_handlers()
   obs = {'crash': crashes, 'exc': exc, 'ret': ret,
@@ -664,8 +700,12 @@ class Model:
           if res not in ('EXC', 'STOP', 'TIMEOUT'):
             res, exc = 'EXC', 'RuntimeError'
           continue
-        for ent in spec:
-          name, isf = ent[0], ent[1]
+        always_fail = isinstance(spec, dict)
+        ents = spec['ds'] if always_fail else spec
+        if always_fail and spec.get('shape') == 'single':
+          ents = ents[:1]
+        for ent in ents:
+          name, isf = ent[0], ent[1] or always_fail
           self.diags.add(name)
           if not (ent[2:] and ent[2]):
             # an internal diagnosis is in the store and on the phase record
@@ -910,7 +950,9 @@ def gen_phase(rng, ids, rich=True):
   if rng.random() < .35:
     n = rng.choice([1, 1, 1, 2])
     beh['ds'] = [rng.choice([[['D1', 0]], [['D2', 1]], [['D1', 0, 1]],
-                             [['D1', 0], ['D3', 0, 1]], 'RAISE', []])
+                             [['D1', 0], ['D3', 0, 1]], 'RAISE', [],
+                             {'af': 1, 'shape': 'list', 'ds': [['D2', 0]]},
+                             {'af': 1, 'shape': 'single', 'ds': [['D2', 0]]}])
                  for _ in range(n)]
   if rich:
     if rng.random() < .1:
